@@ -157,6 +157,43 @@ Definition md_remove (d : memdict) (k t : list N) : memdict :=
 
 Definition md_ops : dict_ops memdict := mkDictOps memdict md_lookup md_user_lookup md_add md_update md_remove.
 
+(* ---- the same dictionary when the SYSTEM layer is a trie FILE (what chewing_new2 loads; capi cases) ----
+   Trie::lookup_first_n_phrases with FuzzyPartialPrefix walks the index level by level and keeps every child whose
+   syllable starts_with the query's (partial) syllable: the answer is the phrases of every key of the same length
+   that matches syllable by syllable, keys in ascending order of their codes (children are stored in that order),
+   each key's phrases in leaf order - the order `md_sys` lists them in.  The user layer (an in-memory TrieBuf whose
+   entries are all pending) matches its key exactly under every strategy (TrieBuf::entries_iter_for). *)
+Fixpoint syls_match (entry query : list N) : bool :=
+  match entry, query with
+  | [], [] => true
+  | a :: e', b :: q' => starts_with a b && syls_match e' q'
+  | _, _ => false
+  end.
+
+Fixpoint insert_by_key (x : dentry) (l : list dentry) : list dentry :=
+  match l with
+  | [] => [x]
+  | y :: l' =>
+    let '(kx, _, _, _) := x in
+    let '(ky, _, _, _) := y in
+    match lex_compare kx ky with
+    | Gt => y :: insert_by_key x l'
+    | _ => x :: l
+    end
+  end.
+Definition sort_by_key (l : list dentry) : list dentry := fold_right insert_by_key [] l.
+
+Definition tbf_lookup (entries : list dentry) (k : list N) : list phrase :=
+  map (fun x => let '(_, t, f, _) := x in (t, f))
+      (sort_by_key (filter (fun x => let '(k', _, _, _) := x in syls_match k' k) entries)).
+
+Definition mdf_lookup (d : memdict) (fuzzy : bool) (k : list N) : list phrase :=
+  (* Layered merges by text from the empty list: two matching keys of the file may carry the same text *)
+  if fuzzy then fold_left merge_phrase (tbf_lookup (md_sys d) k ++ tb_lookup (md_user d) (md_grave d) k) []
+  else md_lookup d false k.
+
+Definition mdf_ops : dict_ops memdict := mkDictOps memdict mdf_lookup md_user_lookup md_add md_update md_remove.
+
 (* ---- what the correspondence driver calls ---- *)
 Definition med := editor memdict N.
 
@@ -220,27 +257,31 @@ Definition m_conv : conv_fn memdict := fun d k c n =>
 (* ---- the instance the correspondence check runs since the layouts joined the editor model: the syllable editor
    is (layout number, layout state), so histories switch layouts (OpLayout / m_set_layout) at any moment ---- *)
 Definition medl := editor memdict lay.
+
+Section ML.
+(* dops: in-memory system dictionary; mdf_ops: trie-file system dictionary (capi cases) *)
+Variable dops : dict_ops memdict.
 Definition ml_init (d : memdict) (L : N) (ab : list (N * list N)) (ss : symbol_sel) (t0 : N) : medl :=
   init_editor d (L, LayoutBase.lstate_empty) ab ss t0.
-Definition ml_key (conv : conv_fn memdict) (e : medl) (ev : keyevent) := process_keyevent md_ops lay_ops conv e ev.
-Definition ml_select (conv : conv_fn memdict) (e : medl) (n : nat) := ed_select md_ops lay_ops conv e n.
+Definition ml_key (conv : conv_fn memdict) (e : medl) (ev : keyevent) := process_keyevent dops lay_ops conv e ev.
+Definition ml_select (conv : conv_fn memdict) (e : medl) (n : nat) := ed_select dops lay_ops conv e n.
 Definition ml_cancel (e : medl) := ed_cancel_selecting e.
-Definition ml_start_selecting (e : medl) := ed_start_selecting md_ops lay_ops e.
-Definition ml_commit (conv : conv_fn memdict) (e : medl) := ed_commit md_ops conv e.
+Definition ml_start_selecting (e : medl) := ed_start_selecting dops lay_ops e.
+Definition ml_commit (conv : conv_fn memdict) (e : medl) := ed_commit dops conv e.
 Definition ml_clear (e : medl) := ed_clear lay_ops e.
 Definition ml_ack (e : medl) := ed_ack e.
-Definition ml_set_options (e : medl) (o : options) := ed_set_options_c md_ops lay_ops e o.
+Definition ml_set_options (e : medl) (o : options) := ed_set_options_c dops lay_ops e o.
 Definition ml_set_engine (e : medl) (k : engine_kind) := ed_set_engine e k.
-Definition ml_set_layout (e : medl) (L : N) := ed_set_layout md_ops lay_ops e L.
+Definition ml_set_layout (e : medl) (L : N) := ed_set_layout dops lay_ops e L.
 Definition ml_clear_syl (e : medl) := ed_clear_syllable_editor lay_ops e.
-Definition ml_jump_next (e : medl) := ed_jump_next md_ops e.
-Definition ml_jump_prev (e : medl) := ed_jump_prev md_ops e.
-Definition ml_jump_first (e : medl) := ed_jump_first md_ops e.
-Definition ml_jump_last (e : medl) := ed_jump_last md_ops e.
-Definition ml_learn (e : medl) (k t : list N) := ed_learn_c md_ops lay_ops e k t.
-Definition ml_unlearn (e : medl) (k t : list N) := ed_unlearn_c md_ops lay_ops e k t.
-Definition ml_candidates (e : medl) := ed_all_candidates md_ops lay_ops e.
-Definition ml_total_page (e : medl) := ed_total_page md_ops lay_ops e.
+Definition ml_jump_next (e : medl) := ed_jump_next dops e.
+Definition ml_jump_prev (e : medl) := ed_jump_prev dops e.
+Definition ml_jump_first (e : medl) := ed_jump_first dops e.
+Definition ml_jump_last (e : medl) := ed_jump_last dops e.
+Definition ml_learn (e : medl) (k t : list N) := ed_learn_c dops lay_ops e k t.
+Definition ml_unlearn (e : medl) (k t : list N) := ed_unlearn_c dops lay_ops e k t.
+Definition ml_candidates (e : medl) := ed_all_candidates dops lay_ops e.
+Definition ml_total_page (e : medl) := ed_total_page dops lay_ops e.
 Definition ml_syl_read (e : medl) : N := so_read lay_ops (syl (sh e)).
 Definition ml_layout (e : medl) : N := fst (syl (sh e)).
 
@@ -248,12 +289,22 @@ Definition ml_valid_conv (e : medl) (c : composition) (ivs : list interval) : bo
   let d := dict (sh e) in
   match engine (sh e) with
   | EngSimple => list_eqb interval_eqb (simple_convert (m_lookup1 d) spell c) ivs
-  | k => valid_conversion spell (fun syms => md_lookup d (engine_fuzzy k) (syl_prefix syms)) c ivs
+  | k => valid_conversion spell (fun syms => do_lookup dops d (engine_fuzzy k) (syl_prefix syms)) c ivs
   end.
 
 Definition ml_engine_alts (e : medl) (c : composition) : outcome (list (list interval) * bool) :=
   let d := dict (sh e) in
   match engine (sh e) with
   | EngSimple => Ok ([simple_convert (m_lookup1 d) spell c], false)
-  | k => chewing_convert_x sort_by_len spell (fun syms => md_lookup d (engine_fuzzy k) (syl_prefix syms)) c
+  | k => chewing_convert_x sort_by_len spell (fun syms => do_lookup dops d (engine_fuzzy k) (syl_prefix syms)) c
+  end.
+End ML.
+
+(* the modelled engines over a dictionary whose system layer is a trie file *)
+Definition mf_conv : conv_fn memdict := fun d k c n =>
+  match k with
+  | EngSimple => simple_convert (m_lookup1 d) spell c
+  | _ => if Nat.leb (clen c) 4000
+         then engine_alt sort_by_len spell (fun syms => mdf_lookup d (engine_fuzzy k) (syl_prefix syms)) c n
+         else simple_convert (m_lookup1 d) spell c
   end.
